@@ -82,17 +82,29 @@ func c15Requests(r *rand.Rand, methods []string, signer *vlib.Identity, wallet *
 		switch m {
 		case "vipnode_connect":
 			req := vlib.ConnectReq(r.Intn(2) == 0, pickS(r), pickS(r), pickS(r))
+			if r.Intn(3) == 0 {
+				// hostile only in where it is sent from: a perfectly valid registration, over whatever transport
+				req = vlib.ConnectReq(true, "geth", "enode://"+signer.NodeID+"@198.51.100.5:30303", "")
+			}
 			req.VipnodeVersion = pickS(r)
 			req.NodeInfo.Version = pickS(r)
 			req.NodeInfo.Kind = ethnode.NodeKind(r.Intn(9) - 2)
 			req.NodeInfo.Network = ethnode.NetworkID(r.Intn(100) - 50)
 			identity, key, args = signer.NodeID, signer, []interface{}{req}
 		case "vipnode_host":
-			identity, key, args = signer.NodeID, signer, []interface{}{pool.HostRequest{Kind: pickS(r), Payout: pickS(r), NodeURI: pickS(r)}}
+			hr := pool.HostRequest{Kind: pickS(r), Payout: pickS(r), NodeURI: pickS(r)}
+			if r.Intn(3) == 0 {
+				hr = pool.HostRequest{Kind: "geth", NodeURI: "enode://" + signer.NodeID + "@198.51.100.6:30303"}
+			}
+			identity, key, args = signer.NodeID, signer, []interface{}{hr}
 		case "vipnode_client":
 			identity, key, args = signer.NodeID, signer, []interface{}{pool.ClientRequest{Kind: pickS(r), NumHosts: vlib.Pick(r, -1<<31, -1, 0, 1, 1<<30, 1<<62)}}
 		case "vipnode_peer":
-			identity, key, args = signer.NodeID, signer, []interface{}{pool.PeerRequest{Kind: pickS(r), Num: vlib.Pick(r, -1<<62, -1<<31, -5, -1, 0, 1, 1<<30, 1<<62)}}
+			pr := pool.PeerRequest{Kind: pickS(r), Num: vlib.Pick(r, -1<<62, -1<<31, -5, -1, 0, 1, 1<<30, 1<<62)}
+			if r.Intn(3) == 0 {
+				pr = pool.PeerRequest{Kind: "", Num: 3}
+			}
+			identity, key, args = signer.NodeID, signer, []interface{}{pr}
 		case "vipnode_update":
 			infos := []ethnode.PeerInfo{}
 			for i := 0; i < r.Intn(5); i++ {
